@@ -48,7 +48,8 @@ def step (line : String) : String :=
       let o : Ops := { a := a, b := b, c := c, imm := imm }
       match enc cls o with
       | .error e => "err " ++ e.name
-      | .ok w =>
+      | .ok wi =>
+        let w := wi.toNat
         let d := decodeAny cls.size w
         let m := meaning cls o
         let pt := ptoks cls o
